@@ -388,8 +388,8 @@ pub fn run(thorough: bool) -> i32 {
                 for len in 0..=lmax {
                     for interleave in [1u8, 2, 3] {
                         for cenc in (if thorough { vec![0u8, 1, 2, 3] } else { vec![0u8, 3] }) {
-                            if cenc != 0 && len % 4 != 1 {
-                                continue; // the transfer-encoded length is what matters; a few text sizes suffice
+                            if cenc != 0 && len % 4 != 1 && len != 0 {
+                                continue; // the transfer-encoded length is what matters; a few text sizes suffice (and the EMPTY object: its encoded form is not empty)
                             }
                             for (count, carousel) in [(1u32, false), (2, false), (3, false), (1, true), (2, true)] {
                                 if !thorough && count == 3 {
